@@ -47,7 +47,29 @@ func verifMakeLeaf(n, base, odd, oddLen, dead int) *btreeNode {
 		node.leafCells[i].deleted = verifBool("deleted")
 	}
 	node.offsets = node.offsets[:n]
+	verifPermuteOffsets(node, n, dead)
 	return node
+}
+
+// verifPermuteOffsets: with perm=1 the offset array (logical position -> cell
+// slot) is an arbitrary permutation chosen by forking, not the identity that
+// appending produces (out-of-order insertion, as WAL replay and splits of inner
+// leaves do, leaves any permutation behind; cycles of length 3 and more included).
+func verifPermuteOffsets(node *btreeNode, n, dead int) {
+	if verifParam("perm", 0) != 1 || dead > 0 || n < 2 {
+		return
+	}
+	rest := append([]uint16(nil), node.offsets...)
+	var out []uint16
+	for len(rest) > 0 {
+		i := 0
+		if len(rest) > 1 {
+			i = verifChoice("perm", len(rest))
+		}
+		out = append(out, rest[i])
+		rest = append(rest[:i], rest[i+1:]...)
+	}
+	copy(node.offsets, out)
 }
 
 func verifSameLeaf(dec, node *btreeNode, n int) {
@@ -112,6 +134,7 @@ func verifH_C12_internal() {
 		node.appendInternalCell(verifU32("key"), verifU64("child"))
 	}
 	node.offsets = node.offsets[:k]
+	verifPermuteOffsets(node, k, dead)
 	buf, err := node.encode()
 	verifAssert(err == nil, "encode-ok")
 	verifAssert(buf.Len() == pageSize, "page-size")
